@@ -177,7 +177,7 @@ macro_rules! t_c04_str_find_charpat {
         }
     };
 }
-t_c04_str_find_charpat! {c04_str_find_charpat, 5, 22}
+t_c04_str_find_charpat! {c04_str_find_charpat, 5, 22} // tier=thorough
 t_c04_str_find_charpat! {c04_str_find_charpat_big, 6, 26} // tier=thorough bound="valid UTF-8 string<=6 bytes, char pattern (any char)"
 
 macro_rules! t_c04_str_find_skip_keep {
@@ -225,7 +225,7 @@ macro_rules! t_c04_str_find_skip_keep {
         }
     };
 }
-t_c04_str_find_skip_keep! {c04_str_find_skip_keep, 4, 2, 11}
+t_c04_str_find_skip_keep! {c04_str_find_skip_keep, 4, 2, 11} // tier=thorough
 t_c04_str_find_skip_keep! {c04_str_find_skip_keep_big, 5, 3, 18} // tier=thorough bound="valid UTF-8 string<=5 bytes, &str pattern<=3 bytes"
 
 macro_rules! t_c04_split_once {
